@@ -6,11 +6,11 @@
 package ref
 
 import (
-	"math/big"
 	"bytes"
 	"encoding/json"
 	"fmt"
 	"math"
+	"math/big"
 	"sort"
 	"strconv"
 	"strings"
@@ -136,7 +136,34 @@ func FormatNumber(f float64) string {
 	return strconv.FormatFloat(f, 'g', -1, 64)
 }
 
+// JSONRaw writes v like JSON but leaves every character that JSON allows unescaped in a string as it is
+// (DEL, C1 controls, U+2028 / U+2029, U+FEFF, ... appear as raw UTF-8).
+func JSONRaw(v V) string {
+	rawStrings = true
+	defer func() { rawStrings = false }()
+	return JSON(v)
+}
+
+var rawStrings bool
+
 func writeString(b *bytes.Buffer, s string) {
+	if rawStrings {
+		b.WriteByte('"')
+		for _, r := range s {
+			switch {
+			case r == '"':
+				b.WriteString(`\"`)
+			case r == '\\':
+				b.WriteString(`\\`)
+			case r < 0x20:
+				fmt.Fprintf(b, `\u%04x`, r)
+			default:
+				b.WriteRune(r)
+			}
+		}
+		b.WriteByte('"')
+		return
+	}
 	b.WriteByte('"')
 	for i := 0; i < len(s); {
 		c := s[i]
